@@ -506,16 +506,6 @@ inductive Parsed
   | skip
   deriving Repr
 
-/-- float64 bits of a description's scale (uint8) / offset (int8): small integers -/
-def f64OfSmall (n : Nat) : Nat :=
-  if n == 0 then 0 else
-  let k := n.log2
-  (1023 + k) * 2 ^ 52 + (n - 2 ^ k) * 2 ^ (52 - k)
-
-def descScale (d : Desc) : Nat := if d.scale != 255 then f64OfSmall d.scale else f64One
-def descOffset (d : Desc) : Nat :=
-  if d.offset != 127 then (if d.offset ≥ 128 then 2 ^ 63 + f64OfSmall (256 - d.offset) else f64OfSmall d.offset) else 0
-
 def mkField (num bt : Nat) (v : Value) : Field := { base := some { num := num, baseType := bt }, value := v }
 
 /-- `createField` / `createDeveloperField` / placeholder for one (name, value, units) triple of message `mesgNum` -/
@@ -545,15 +535,17 @@ def readCell (ar : Arith) (ds : List Desc) (mesgNum : Nat) (c : Cell) : R Parsed
     | .unmodelled => .unmodelled
   | none =>
     if isPrefixOf' unknownTxt c.name then .ok .skip else     -- unknown without a number: unknownField++
-    match ds.reverse.find? (fun d => d.name == c.name) with     -- the most recent description with that name
+    -- the most recent description with that name; its scale and offset are NOT used: the writer prints developer
+    -- field values as they are (/repo fix of KF-C19-6)
+    match ds.reverse.find? (fun d => d.name == c.name) with
     | some d =>
       let r := if c.val.length != 1 then
-          match mapR (fun a => parseAtom ar a d.bt false (descScale d) (descOffset d) c.units) c.val with
+          match mapR (fun a => parseAtom ar a d.bt false f64One 0 c.units) c.val with
           | .ok vs => R.ok (packValues vs)
           | .err => .err
           | .unmodelled => .unmodelled
         else match c.val with
-          | [a] => parseAtom ar a d.bt false (descScale d) (descOffset d) c.units
+          | [a] => parseAtom ar a d.bt false f64One 0 c.units
           | _ => .unmodelled
       match r with
       | .ok .invalid => .ok (.placeholder c.name c.val)
